@@ -964,12 +964,93 @@ Proof.
   - apply Hnil. unfold c_restart. break_match; reflexivity.
   - apply Hnil. reflexivity.
   - apply Hnil. reflexivity.
+  - apply Hnil. reflexivity.
+  - apply Hnil. unfold ev_snap_install. break_match; reflexivity.
 Qed.
 
-Lemma step_Inv w e : Inv w -> bound w -> event_safe w e = true ->
+(* ---------- the snapshot object held by raft ---------- *)
+(* FSM.Snapshot() serialises the state when it is called, so whatever is applied before Snapshoter.Save() runs is
+   not in the snapshot: it is the state of exactly the log prefix it is labelled with *)
+Definition SInvP (lg : list mcmd) (sn : option (nat * mstate)) : Prop :=
+  match sn with
+  | Some (idx, st) => (idx <= length lg)%nat /\ st = replay (firstn idx lg)
+  | None => True
+  end.
+Definition SInv (w : world) : Prop := SInvP (w_log w) (w_snap w).
+
+Lemma SInvP_app lg l sn : SInvP lg sn -> SInvP (lg ++ l) sn.
+Proof.
+  destruct sn as [[idx st]|]; simpl; auto. intros [Hi Hs]. split; [rewrite app_length; lia|].
+  rewrite firstn_app. replace (idx - length lg)%nat with 0%nat by lia. rewrite firstn_O, app_nil_r. auto.
+Qed.
+
+Lemma snap_same w e : e <> EvSnapTake -> w_snap (step w e) = w_snap w.
+Proof.
+  intros Hne. destruct e; simpl; try congruence.
+  - unfold propose. destruct (m_apply (r_st (leader_rep w)) c). reflexivity.
+  - unfold ev_catchup. break_match; reflexivity.
+  - unfold ev_install. break_match; reflexivity.
+  - unfold ev_restart. break_match; reflexivity.
+  - unfold ev_leader. break_match; reflexivity.
+  - unfold m_register_curator, propose. destruct (m_apply (r_st (leader_rep w)) CRegCur) as [s' r].
+    destruct r; simpl; [|reflexivity]. break_match; reflexivity.
+  - unfold m_register_ts, propose. destruct (m_apply (r_st (leader_rep w)) CRegTs). reflexivity.
+  - unfold m_heartbeat. break_match; reflexivity.
+  - unfold m_new_partition. destruct (vol_find c (w_mvol w)); [|reflexivity].
+    destruct (n =? 0); [reflexivity|]. unfold propose.
+    destruct (m_apply _ (CNewPart c)). reflexivity.
+  - unfold c_start. break_match; reflexivity.
+  - unfold c_register. destruct (cur_node w n); [|reflexivity]. destruct (n_pc c); try reflexivity.
+    unfold m_register_curator, propose. destruct (m_apply (r_st (leader_rep w)) CRegCur) as [s' r].
+    destruct r; simpl; [|reflexivity]. destruct lost; break_match; reflexivity.
+  - unfold c_commit_reg. break_match; reflexivity.
+  - unfold c_new_part. destruct (cur_node w n); [|reflexivity]. destruct (n_pc c); try reflexivity.
+    unfold m_new_partition. destruct (vol_find id (w_mvol w)); [|reflexivity].
+    destruct (n0 =? 0); [reflexivity|]. unfold propose.
+    destruct (m_apply _ (CNewPart id)) as [s' r]. simpl. destruct r; [destruct lost|]; reflexivity.
+  - unfold c_commit_part. break_match; reflexivity.
+  - unfold c_heartbeat. destruct (cur_node w n); [|reflexivity]. destruct (n_pc c); try reflexivity.
+    unfold m_heartbeat. destruct (verify_cid (leader_st w) id); simpl; [|reflexivity].
+    destruct lost; [reflexivity|]. break_match; reflexivity.
+  - unfold c_monitor. destruct (cur_node w n); [|reflexivity]. destruct (n_pc c); try reflexivity.
+    unfold m_new_partition. destruct (vol_find id (w_mvol w)); [|reflexivity].
+    destruct (n0 =? 0); [reflexivity|]. unfold propose.
+    destruct (m_apply _ (CNewPart id)) as [s' r]. simpl. destruct r; [destruct lost|]; try reflexivity.
+    break_match; reflexivity.
+  - unfold c_leader. break_match; reflexivity.
+  - unfold c_restart. break_match; reflexivity.
+  - unfold ev_snap_install.
+    destruct (Nat.eqb j (w_leader w)); [reflexivity|]. destruct (nth_error (w_reps w) j); [|reflexivity].
+    destruct (w_snap w) as [[idx st]|] eqn:E; [|congruence].
+    destruct (Nat.leb (r_applied r) idx); simpl; congruence.
+Qed.
+
+Lemma ev_snap_install_Inv w j : Inv w -> SInv w -> event_safe w (EvSnapInstall j) = true -> Inv (ev_snap_install w j).
+Proof.
+  intros (HR & HH & HC) HS Hs. unfold ev_snap_install. simpl in Hs.
+  destruct (Nat.eqb j (w_leader w)) eqn:Ej; [split; [|split]; assumption|]. apply Nat.eqb_neq in Ej.
+  destruct (nth_error (w_reps w) j) as [r|] eqn:En; [|split; [|split]; assumption].
+  unfold SInv in HS. destruct (w_snap w) as [[idx st]|]; [|split; [|split]; assumption].
+  destruct (Nat.leb (r_applied r) idx); [|split; [|split]; assumption].
+  rewrite (restore_safe _ _ Hs). destruct HS as [Hi ->].
+  destruct (set_master_same w (upd_nth j {| r_applied := idx; r_st := replay (firstn idx (w_log w)) |} (w_reps w)) (w_leader w) (w_mvol w) HH HC) as [H1 H2].
+  split; [|split; auto]. apply RInv_follower; auto. split; simpl; auto.
+Qed.
+
+Lemma step_SInv w e : RInv w -> SInv w -> SInv (step w e).
+Proof.
+  intros HR HS. destruct (log_grows w e) as [l Hl].
+  assert (He : {e = EvSnapTake} + {e <> EvSnapTake}) by (destruct e; (left; reflexivity) || (right; discriminate)).
+  destruct He as [->|Hne].
+  - simpl. unfold SInv, ev_snap_take; simpl. destruct HR as (Hh & Hlt & Ha). split; [lia|].
+    rewrite (RInv_leader_st w (conj Hh (conj Hlt Ha))). rewrite Ha, firstn_all. reflexivity.
+  - unfold SInv. rewrite (snap_same w e Hne), Hl. apply SInvP_app. exact HS.
+Qed.
+
+Lemma step_Inv w e : Inv w -> SInv w -> bound w -> event_safe w e = true ->
   Inv (step w e) /\ (length (w_log (step w e)) <= S (length (w_log w)))%nat.
 Proof.
-  intros HI Hb Hs. pose proof HI as (HR & HH & HC).
+  intros HI HS Hb Hs. pose proof HI as (HR & HH & HC).
   assert (Hsame : forall w0, Inv w0 -> w_log w0 = w_log w -> Inv w0 /\ (length (w_log w0) <= S (length (w_log w)))%nat).
   { intros w0 H0 ->. split; auto. }
   destruct e; simpl.
@@ -1001,6 +1082,9 @@ Proof.
   - apply Hsame; [apply c_restart_Inv; auto|]. unfold c_restart. break_match; reflexivity.
   - split; auto.
   - split; auto.
+  - split; [|simpl; lia]. split; [unfold RInv, leader_rep in *; simpl; exact HR|].
+    split; [unfold HInv, canon in *; simpl; exact HH | unfold CInv, canon in *; simpl; exact HC].
+  - apply Hsame; [apply ev_snap_install_Inv; auto|]. unfold ev_snap_install. break_match; reflexivity.
 Qed.
 
 Lemma Inv_init : Inv w_init.
@@ -1014,18 +1098,19 @@ Proof.
 Qed.
 
 Lemma run_from_Inv evs : forall w,
-  Inv w -> N.of_nat (length (w_log w) + length evs) + 3 < W32 -> trace_safe_from w evs = true ->
-  Inv (run_from w evs) /\ bound (run_from w evs) /\
+  Inv w -> SInv w -> N.of_nat (length (w_log w) + length evs) + 3 < W32 -> trace_safe_from w evs = true ->
+  Inv (run_from w evs) /\ SInv (run_from w evs) /\ bound (run_from w evs) /\
   (length (w_log (run_from w evs)) <= length (w_log w) + length evs)%nat /\
   exists l, w_log (run_from w evs) = w_log w ++ l.
 Proof.
-  induction evs as [|e evs IH]; intros w HI Hb Hs; simpl in *.
-  - split; auto. split; [unfold bound; lia|]. split; [lia|]. exists []. rewrite app_nil_r; auto.
+  induction evs as [|e evs IH]; intros w HI HS Hb Hs; simpl in *.
+  - split; auto. split; auto. split; [unfold bound; lia|]. split; [lia|]. exists []. rewrite app_nil_r; auto.
   - apply andb_true_iff in Hs as [Hs1 Hs2].
     assert (Hbw : bound w) by (unfold bound; lia).
-    destruct (step_Inv w e HI Hbw Hs1) as [HI' Hl].
-    destruct (IH (step w e) HI') as (H1 & H2 & H4 & l2 & H3); auto; [lia|].
-    split; auto. split; auto. split; [unfold run_from in *; lia|].
+    destruct (step_Inv w e HI HS Hbw Hs1) as [HI' Hl].
+    assert (HS' : SInv (step w e)) by (apply step_SInv; auto; apply HI).
+    destruct (IH (step w e) HI' HS') as (H1 & H5 & H2 & H4 & l2 & H3); auto; [lia|].
+    split; auto. split; auto. split; auto. split; [unfold run_from in *; lia|].
     destruct (log_grows w e) as [l1 Hl1]. exists (l1 ++ l2). unfold run_from in *. rewrite H3, Hl1, app_assoc. auto.
 Qed.
 
@@ -1043,7 +1128,7 @@ Definition bounded (evs : list event) : Prop := N.of_nat (length evs) + 3 < 4294
 
 Lemma run_Inv evs : trace_safe evs = true -> bounded evs -> Inv (run evs) /\ bound (run evs).
 Proof.
-  intros Hs Hb. destruct (run_from_Inv evs w_init Inv_init) as (H1 & H2 & _); auto.
+  intros Hs Hb. destruct (run_from_Inv evs w_init Inv_init I) as (H1 & _ & H2 & _); auto.
 Qed.
 
 (* ================= the property-level statements ================= *)
@@ -1062,9 +1147,9 @@ Lemma ownership_stable_lemma evs evs' p c :
 Proof.
   intros Hs Hb Hpc. unfold trace_safe in Hs. rewrite trace_safe_from_app in Hs.
   apply andb_true_iff in Hs as [Hs1 Hs2]. unfold bounded in Hb. rewrite app_length in Hb.
-  destruct (run_from_Inv evs w_init Inv_init) as (HI1 & Hb1 & Hlen & l1 & Hl1); auto; [unfold W32; simpl; lia|].
+  destruct (run_from_Inv evs w_init Inv_init I) as (HI1 & HS1 & Hb1 & Hlen & l1 & Hl1); auto; [unfold W32; simpl; lia|].
   fold (run evs) in *. simpl in Hlen.
-  destruct (run_from_Inv evs' (run evs) HI1) as (HI2 & Hb2 & _ & l2 & Hl2); auto; [unfold W32; lia|].
+  destruct (run_from_Inv evs' (run evs) HI1 HS1) as (HI2 & _ & Hb2 & _ & l2 & Hl2); auto; [unfold W32; lia|].
   rewrite run_app.
   rewrite (RInv_leader_st _ (proj1 HI2)).
   assert (Hlk : m_lookup (canon (run evs)) p = ROk c).
